@@ -55,6 +55,10 @@ def compact_keep(src):
 
 def attempt(name, fn):
     try:
+        # (self-test only: TRANSLATE_ENV_UNTIE=all or a comma-separated list makes the named items unreadable, to check
+        # that every theorem of the tie degrades to the model's own values instead of failing)
+        forced = os.environ.get('TRANSLATE_ENV_UNTIE', '')
+        if forced and (forced == 'all' or name in forced.split(',')): refuse(name, 'made unreadable for the self-test')
         v = fn()
         TIED.append(name)
         return v
